@@ -37,7 +37,7 @@ from props import C01 as base
 
 ID = 'C11'
 LEVEL = 'other'
-P_TARGETS = ['cgsmiles.resolve:MoleculeResolver.edges_from_bonding_descrpt', 'cgsmiles.graph_utils:merge_graphs']
+P_TARGETS = ['cgsmiles.resolve:MoleculeResolver.edges_from_bonding_descrpt', 'cgsmiles.resolve:MoleculeResolver.resolve_disconnected_molecule', 'cgsmiles.graph_utils:merge_graphs']
 BUDGET = {'quick': 33.0, 'thorough': 400.0}
 CHUNK = 50
 BOUNDS = {
